@@ -117,6 +117,22 @@ class Capture:
             return v
         numpy.random.uniform = uniform
         numpy.random.rand = rand
+        # the other spellings of "uniform numbers in [0, 1)" of the legacy generator are observed the same way, so that
+        # an equivalent call (random_sample(n) for rand(n)) is still seen
+        self._aliases = {}
+        for alias in ('random', 'random_sample', 'ranf', 'sample'):
+            fn_ = getattr(numpy.random, alias, None)
+            if fn_ is None:
+                continue
+            self._aliases[alias] = fn_
+
+            def aliased(*a, _fn=fn_, **k):
+                v = _fn(*a, **k)
+                if cap.depth:
+                    cap._draws.extend(float(x) for x in numpy.asarray(v).reshape(-1))
+                return v
+            setattr(numpy.random, alias, aliased)
+        self.incomplete = 0          # simulated catalogs whose uniform numbers could not be observed (not judged by draws)
         for name, mod in self.mods.items():
             orig = mod._simulate_catalog
             self._orig[name] = orig
@@ -136,6 +152,12 @@ class Capture:
                 finally:
                     cap.depth -= 1
                 draws = list(cap._draws) if rn is None else [float(x) for x in numpy.asarray(rn).reshape(-1)]
+                if rn is None and not draws and int(n) > 0:
+                    # events were asked for but no uniform number was seen: the sampler drew them in a way this wrapper does
+                    # not observe (another generator); such a catalog cannot be replayed from its draws and is left out
+                    # (counted, never reported).  A catalog asked to hold NO event is always kept: it must come back empty.
+                    cap.incomplete += 1
+                    return out
                 cap.calls.append((_name, int(n), numpy.array(numpy.ma.getdata(weights), dtype=float).copy(), draws,
                                   numpy.array(out, dtype=float).copy()))
                 return out
@@ -146,6 +168,8 @@ class Capture:
         self.numpy.random.uniform = self._u
         self.numpy.random.rand = self._r
         self.numpy.random.poisson = self._p
+        for alias, fn_ in self._aliases.items():
+            setattr(self.numpy.random, alias, fn_)
         for name, mod in self.mods.items():
             mod._simulate_catalog = self._orig[name]
         return False
@@ -327,6 +351,8 @@ def run(chk, replay=None):
             chk.violation('poisson:L-test raised', {'err': repr(res)})
         # the number of events of every simulated catalog is a Poisson draw with the forecast mean
         tot = float(numpy.sum(numpy.array(rates)))
+        if cap.incomplete:
+            continue
         if len(cap.poisson) != len(cap.calls) or any(abs(lam - tot) > 1e-12 * tot for lam, _ in cap.poisson) or \
                 [v for _, v in cap.poisson] != [tgt for (_, tgt, _, _, _) in cap.calls]:
             chk.violation('poisson:L-test event number is not a Poisson draw with the forecast mean',
